@@ -53,7 +53,9 @@ Low(pr) == RSub(pr.p, pr.ci)
 High(pr) == RAdd(pr.p, pr.ci)
 
 \* ---- health reference -----------------------------------------------------------------------
-Dec(b) == ROfBig(BPow10(b.dec))
+\* balances of Drift-backed banks are kept in Drift's 9-decimal scaled units, all others in the mint's decimals
+BalDec(b) == IF b.cfg.asset_tag = 4 THEN 9 ELSE b.dec
+Dec(b) == ROfBig(BPow10(BalDec(b)))
 PT(req) == IF req = "Maint" THEN "RT" ELSE "TW"
 DebtSlots(a) == {i \in ActiveSlots(a) : BGe(a.bal[i].l, FONE)}
 EntrySet(b) == {i \in DOMAIN b.emode.entries : b.emode.entries[i].tag # 0}
